@@ -1274,3 +1274,12 @@ v("c27-polars-over-only-for-method-terms", "C27", PM,
 v("c16-passthrough-guard-widened-by-or", "C16", "sql_model.py",
   "        for ci in using_left:\n            if ci not in common:\n",
   "        for ci in using_left:\n            if (ci not in common) or (join_node.jointype == \"LEFT\"):\n")
+
+# rules written after the twelfth (short) seeding round
+v("c22-column-cells-first-only", "C22", "data_schema.py",
+  "        return [vi for j in range(col.shape[1]) for vi in col.iloc[:, j]]\n", "        col = col.iloc[:, 0]\n")
+v("c22-column-cells-loop-twin", "C22", "data_schema.py",
+  "        return [vi for j in range(col.shape[1]) for vi in col.iloc[:, j]]\n",
+  "        cells = []\n        for j in range(col.shape[1]):\n            cells.extend(col.iloc[:, j])\n        return cells\n", expect="silent")
+v("c17-compose-landing-map-inverted", "C17", "cdata.py",
+  "                landed_in = {rso[c].iloc[0]: c for c in rso.columns}\n", "                landed_in = {c: rso[c].iloc[0] for c in rso.columns}\n")
